@@ -55,15 +55,18 @@ package jd
 //@ contract (path).clone
 //@   fresh ret0
 //@   ensures len(ret0) == len(p) && forallInt(0, len(p), func(i int) bool { return same(ret0[i], p[i]) })
+//@   carries C17 C18
 
 //@ contract (path).prependMetadataMerge
 //@   fresh ret0
+//@   carries C17
 
 //@ contract nodeList
 //@   fresh ret0
 //@   requires validNodes(n)
 //@   ensures validNodes(ret0)
 //@   ensures len(n) == 0 ==> len(ret0) == 0
+//@   carries C17
 
 //@ contract (jsonStringOrInteger).diff
 //@   assume_iface 0 delegates to the public Diff of the string or number it stands for, with the caller's metadata
@@ -77,6 +80,7 @@ package jd
 //@ contract (path).appendIndex
 //@   requires validNodes(p) && validObject(o)
 //@   ensures validNodes(ret0)
+//@   carries C17
 
 //@ contract (jsonSet).diff
 //@   loop "range s1" invariant forallKey(s1Map, s1Map, func(k [8]byte) bool { return validNode(s1Map[k]) })
@@ -189,6 +193,7 @@ package jd
 
 //@ contract ReadJsonString
 //@   ensures ret1 == nil ==> validNode(ret0)
+//@   carries C18 C17
 
 //@ contract ReadMergeString
 //@   ensures ret1 == nil ==> validDiff(ret0)
